@@ -193,6 +193,41 @@ class Module:
                     for e in st.targets[0].elts:
                         self._consts.pop(e.id, None)
                 continue
+            # a module-level statement that changes a table after it was bound: NAME.update({...}) / NAME[K] = V / del NAME[K] /
+            # NAME.setdefault / pop / clear ... - applied when it folds, otherwise the name is no constant any more
+            mut = None
+            if isinstance(st, ast.Expr) and isinstance(st.value, ast.Call) and isinstance(st.value.func, ast.Attribute) and isinstance(st.value.func.value, ast.Name) \
+                    and st.value.func.value.id in self._consts and isinstance(self._consts[st.value.func.value.id], dict) \
+                    and st.value.func.attr in ("update", "setdefault", "pop", "popitem", "clear", "__setitem__"):
+                mut = st.value.func.value.id
+                if st.value.func.attr == "update" and len(st.value.args) == 1 and not st.value.keywords:
+                    try:
+                        extra = fold(st.value.args[0], _SymEnv(self._consts))
+                        if isinstance(extra, dict):
+                            merged = dict(self._consts[mut])
+                            merged.update(extra)
+                            self._consts[mut] = merged
+                            mut = None
+                    except _Unfoldable:
+                        pass
+            elif isinstance(st, (ast.Assign, ast.AugAssign, ast.Delete)):
+                tgts = st.targets if isinstance(st, (ast.Assign, ast.Delete)) else [st.target]
+                for t_ in tgts:
+                    if isinstance(t_, ast.Subscript) and isinstance(t_.value, ast.Name) and t_.value.id in self._consts and isinstance(self._consts[t_.value.id], (dict, list)):
+                        mut = t_.value.id
+                        if isinstance(st, ast.Assign) and len(tgts) == 1 and isinstance(self._consts[mut], dict):
+                            try:
+                                k_ = fold(t_.slice, self._consts)
+                                v_ = fold(st.value, _SymEnv(self._consts))
+                                merged = dict(self._consts[mut])
+                                merged[k_] = v_
+                                self._consts[mut] = merged
+                                mut = None
+                            except _Unfoldable:
+                                pass
+            if mut is not None:
+                self._consts.pop(mut, None)
+                continue
             if tgt is not None:
                 try:
                     self._consts[tgt] = fold(val, self._consts)
@@ -459,6 +494,17 @@ def fold(node: ast.AST, env: Dict[str, Any]) -> Any:
                     sc.args = tuple(args)
                     return sc
                 raise
+    if isinstance(node, ast.Call) and ast.unparse(node.func) in ("partial", "functools.partial") and isinstance(env, _SymEnv) and node.args and not node.keywords \
+            and not dict.__contains__(env, "partial"):
+        # partial(F, <constants>) inside a table of callables: kept as the call it is; applied, it is F(<constants>, args)
+        f_ = fold(node.args[0], env)
+        rest = [fold(a, env) for a in node.args[1:]]
+        if isinstance(f_, SymName) and all(isinstance(a, (str, int, bool, bytes, type(None))) and not isinstance(a, SymName) for a in rest):
+            sc = SymCall(f"partial({f_}, {', '.join(repr(a) for a in rest)})")
+            sc.func = "partial"
+            sc.args = (f_,) + tuple(rest)
+            return sc
+        raise _Unfoldable("partial")
     if isinstance(node, ast.Call) and isinstance(node.func, ast.Attribute) and isinstance(node.func.value, ast.Name) \
             and node.func.value.id == "struct" and node.func.attr == "Struct" and len(node.args) == 1 and not node.keywords:
         sc = SymCall(f"struct.Struct({fold(node.args[0], env)!r})")
